@@ -198,7 +198,7 @@ META["C09"] = {
     "budget": {"quick": 40, "thorough": 900},
     "stall_s": 90,
     "deadlock_is_violation": True,
-    "rule": "one run = source machine with 1..5 user states + real rpc.Server + real rpc.Client/NetworkMachine over the simulated network, sync configuration drawn per run (schema / no schema, allowed / skipped lists, shallow clocks, per-mutation sync, push interval 0 / 1ms / 250ms / 2s), a local mutator on the source, a remote mutator through the network machine (Add/Remove/AddNS), a nemesis (connection cut, stall + heal, dial failures, time jumps) and cooperative fault sites (push dropped after being accounted, push skipped as busy), scheduling points between a reply being computed and written and at the fork of every push; non-trivial = every run; distinct = distinct event-log hashes",
+    "rule": "one run = source machine with 1..5 user states + real rpc.Server + real rpc.Client/NetworkMachine over the simulated network, sync configuration drawn per run (schema / no schema, allowed / skipped lists, shallow clocks, per-mutation sync, push interval 0 / 1ms / 250ms / 2s), 0..4 source mutations before the client connects, allow/skip lists in any order, a local mutator on the source, a remote mutator through the network machine (Add/Remove/AddNS), a nemesis (connection cut, stall + heal, dial failures, time jumps) and cooperative fault sites (push dropped after being accounted, push skipped as busy), scheduling points between a reply being computed and written and at the fork of every push; non-trivial = every run; distinct = distinct event-log hashes",
     "components": RPC_COMPONENTS,
     "assumptions": [
         "harness rules from the lock map of pkg/rpc: source handlers never park (Remote* run them under lockExport), one client-issued call in flight at a time, network-machine tracers never park, machine-level hooks are off",
@@ -206,13 +206,13 @@ META["C09"] = {
         "liveness is judged 90 s of fake time after the last fault with the links healed; one explicit client Sync() is allowed when pushes are disabled",
     ],
     "probes": ["fault-cut", "fault-stall", "fault-dialfail", "fault-time-jump", "stale-before-final-sync"],
-    "level_text": "seeded search over source histories, sync configurations, push/reply interleavings and connection faults; convergence after healing, every clock the mirror ever exposes is a source snapshot reached in source order, remote mutation results equal the source's and are visible locally on return, nothing blocks for ever",
+    "level_text": "seeded search over source histories, sync configurations, push/reply interleavings and connection faults; the handshake hands over the source's clock exactly, convergence after healing, every clock the mirror ever exposes is a source snapshot reached in source order, remote mutation results equal the source's and are visible locally on return, nothing blocks for ever",
     "level_note": "trusts testing/synctest, the simulated network (ordered streams, deadlines on the fake clock), rpc2/gob run real",
 }
 META["C10"] = {
     "budget": {"quick": 40, "thorough": 900},
     "stall_s": 90,
-    "rule": "the C09 system with 1..6 user states and mostly fault-free links: every (previous snapshot, next snapshot) pair the server turns into an update message (pushes, mutation replies, per-mutation chains) is applied by the real client to the real mirror and the mirror's new clock must be a source snapshot in source order (so a wrong index space, delta, queue or machine tick shows up as a clock the source never had); drift is injected by dropping accounted pushes and by reordering a push against a reply; non-trivial = every run; distinct = distinct event-log hashes",
+    "rule": "the C09 system with 1..6 user states and mostly fault-free links: every (previous snapshot, next snapshot) pair the server turns into an update message (pushes, mutation replies, per-mutation chains) is applied by the real client to the real mirror and the mirror's new clock must be a source snapshot in source order and its queue tick one the source had with those clocks (so a wrong index space, delta or queue tick shows up as a clock the source never had); the handshake must hand over the source's clock exactly; drift is injected by dropping accounted pushes and by reordering a push against a reply; non-trivial = every run; distinct = distinct event-log hashes",
     "components": RPC_COMPONENTS,
     "assumptions": [
         "the exhaustive 0..4 delta enumeration of the quantifier is not reproduced (that is enumeration, not simulation); the deltas that occur are whatever the generated histories produce",
